@@ -1,6 +1,8 @@
 package main
 
 import (
+	"strconv"
+	"encoding/json"
 	"fmt"
 	"sort"
 	"strings"
@@ -291,6 +293,27 @@ func sortedPairsBy(l []string, full bool) []string {
 	return r
 }
 
+func jsonHex(l []string) string {
+	b, _ := json.Marshal(hxAll(l))
+	return string(b)
+}
+
+// onlyQueryDiffers: "1" when both are URLs and every URL field except href, search and query is the same
+func onlyQueryDiffers(a, b Obs) string {
+	if a.Kind != "U" || b.Kind != "U" {
+		return "0"
+	}
+	for _, i := range urlFieldsOnly {
+		if i == fHref || i == fHrefNoFrag || i == fSearch || i == fQuery {
+			continue
+		}
+		if a.Fields[i] != b.Fields[i] {
+			return "0"
+		}
+	}
+	return "1"
+}
+
 func obsEq(a, b Obs, fields []int) string {
 	if a.Kind != b.Kind {
 		return "outcome " + a.String() + " vs " + b.String()
@@ -339,17 +362,57 @@ func hasConsecutiveSlashes(s string) bool {
 func init() {
 	// the sort-query options re-serialize the query through the SearchParams serializer: same root as D8b
 	knownMatchers["D8b-sort-query-percent-triple"] = func(f *Finding) bool {
-		if !(strings.Contains(f.Case.Cfg, "sort") || strings.Contains(f.Case.Cfg, "Sort") || strings.Contains(f.Case.Cfg, "Semantic")) {
+		if !(strings.Contains(f.Case.Cfg, "sort") || strings.Contains(f.Case.Cfg, "Sort")) {
 			return false
 		}
-		q := f.Case.Extra["query0"]
-		// matches when some decoded name or value of the parsed input still contains a %HH triple
-		for _, x := range formParse(q) {
+		// with repeated percent-decoding nothing of the kind is left in the list: the finding is about sort-query alone
+		if strings.Contains(f.Case.Cfg, "repeated") || strings.Contains(f.Case.Cfg, "Semantic") || strings.Contains(f.Case.Cfg, "GoogleSafeBrowsing") {
+			return false
+		}
+		// some decoded name or value of the parsed input still contains a %HH triple ...
+		triple := false
+		for _, x := range formParse(f.Case.Extra["query0"]) {
 			if pctDecode(x) != x {
-				return true
+				triple = true
 			}
 		}
-		return false
+		if !triple {
+			return false
+		}
+		same := func(a, b []string) bool {
+			return toValid(strings.Join(a, "\x00")) == toValid(strings.Join(b, "\x00")) && len(a) == len(b)
+		}
+		// ... and the deviation is exactly what writing those triples verbatim explains, nothing else
+		switch f.Case.Family {
+		case "sort-query": // C16: the pairs after sorting are the stable sort with its elements decoded one level further
+			var want, after []string
+			if json.Unmarshal([]byte(f.Case.Extra["want"]), &want) != nil || json.Unmarshal([]byte(f.Case.Extra["after"]), &after) != nil {
+				return false
+			}
+			for i := range want {
+				want[i] = pctDecode(toValid(unhx(want[i])))
+			}
+			for i := range after {
+				after[i] = unhx(after[i])
+			}
+			return same(want, after)
+		default: // C17: only the query differs between the passes, and the second pass is the sort of the first pass's pairs read once more
+			if f.Case.Extra["onlyQuery"] != "1" {
+				return false
+			}
+			// the parameter list the second pass ends with (before it is serialized) is the sort of the first pass's query read once more
+			l1 := formParse(f.Case.Extra["q1"])
+			enc := func(l []string) string {
+				var sb strings.Builder
+				for _, x := range l {
+					x = toValid(x)
+					sb.WriteString(strconv.Itoa(len(x)) + ":" + x)
+				}
+				return sb.String()
+			}
+			p2 := f.Case.Extra["params2"]
+			return p2 == enc(sortedPairsBy(l1, false)) || p2 == enc(sortedPairsBy(l1, true))
+		}
 	}
 	// D16: a profile with repeated percent-decoding but without remove-fragment keeps an empty fragment
 	knownMatchers["D16-empty-fragment-kept"] = func(f *Finding) bool {
@@ -374,7 +437,7 @@ func init() {
 				o2 := c.cmpProf(d, p, nil, o1.Fields[fHref], allButVerrs, fam+"-second-pass", i)
 				if diff := obsEq(o1, o2, urlFieldsOnly); diff != "" {
 					c.Report(Finding{Class: "violation", What: fmt.Sprintf("canonical output is not a fixed point: %q -> %q -> %s (%s)", input, o1.Fields[fHref], o2.String(), diff),
-						Case: Case{Kind: "cparse", Cfg: p.Desc, Input: input, Family: fam, Index: i, Extra: map[string]string{"query0": rawQuery(p, input)}}, Host: o1.Fields[fHostname]})
+						Case: Case{Kind: "cparse", Cfg: p.Desc, Input: input, Family: fam, Index: i, Extra: map[string]string{"query0": rawQuery(p, input), "q1": o1.Fields[fQuery], "params2": o2.Fields0(fParams), "onlyQuery": onlyQueryDiffers(o1, o2)}}, Host: o1.Fields[fHostname]})
 				}
 			}
 			composed := []*Prof{predefinedProfiles[0], predefinedProfiles[1], profFromDesc("")}
@@ -582,7 +645,7 @@ func init() {
 						want := sortedPairsBy(before, k == 1)
 						if toValid(strings.Join(after, "\x00")) != toValid(strings.Join(want, "\x00")) {
 							c.Report(Finding{Class: "violation", What: fmt.Sprintf("sort-query: pairs %q became %q, the stable sort is %q", before, after, want),
-								Case: Case{Kind: "cparse", Cfg: p.Desc, Input: input, Family: "sort-query", Index: i, Extra: map[string]string{"query0": o.Fields[fQuery]}}})
+								Case: Case{Kind: "cparse", Cfg: p.Desc, Input: input, Family: "sort-query", Index: i, Extra: map[string]string{"query0": o.Fields[fQuery], "want": jsonHex(want), "after": jsonHex(after)}}})
 						}
 					}
 				}
